@@ -243,6 +243,8 @@ def record_violations(ck: core.Check, viols: List[Dict[str, Any]], traces: List[
             detail = "trace rejected at event %d %s | case=%s" % (v["l"], json.dumps(ev), json.dumps(short_desc(desc), sort_keys=True)[:200])
         else:
             key = {"clause": v["invariant"], "tool": tr["tool"], "family": family_of(desc), "rc": tr["obs"]["rc"], "shape": shape_of(tr)}
+            if desc.get("cache"):
+                key["cache"] = desc["cache"]
             if desc.get("via"):
                 key["via"] = desc["via"]
             if desc.get("src") == "config":
